@@ -34,7 +34,7 @@ def null_pattern_cases(ctx):
             c.meta["expect"] = [("rows", cs, rows)]
             cases.append(c)
     # a cell of 1 MiB and more followed, in the same row, by NULLs and small values (and a second row)
-    for big in ((1 << 20) + 3, 70000) if ctx.quick() else ((1 << 20) + 3, 70000, 1 << 20, (1 << 21) + 1, 5 << 20):
+    for big in ((1 << 20) + 3, 70000) if ctx.quick() else ((1 << 20) + 3, 70000, 1 << 20, (1 << 21) + 1):
         for order in ("big,int,null", "null,big,null,int", "int,big,null,null,big"):
             if ctx.quick() and (big, order) not in (((1 << 20) + 3, "big,int,null"), ((1 << 20) + 3, "null,big,null,int"), (70000, "int,big,null,null,big")):
                 continue
@@ -48,7 +48,7 @@ def null_pattern_cases(ctx):
                 else:
                     cs.append(dict(table=b"t", name=b"n%d" % j, type=3, flags=0)); toks.append("none"); exp.append(None)
             n = len(cs)
-            two = not ctx.quick()
+            two = not ctx.quick() and big < (1 << 20)
             prog = "start %s %s er p %sfin" % (progs.cols_tok(cs), " ".join("wc %s p" % t for t in toks), ("wr %d %s p " % (n, " ".join(toks))) if two else "")
             c = mk_case("c07r_%d" % i, [("prepare", cmd_prepare(b"p")), ("execute", cmd_execute(1))], ["p reply 1 0 0", "x all - " + prog])
             c.meta["expect"] = [("rows", cs, [exp, exp] if two else [exp])]
@@ -85,7 +85,7 @@ def random_cases(ctx):
             c.meta["expect"] = [("rows", cs, rows)]
             cases.append(c)
     # a cell of 1 MiB and more followed, in the same row, by NULLs and small values (and a second row)
-    for big in ((1 << 20) + 3, 70000) if ctx.quick() else ((1 << 20) + 3, 70000, 1 << 20, (1 << 21) + 1, 5 << 20):
+    for big in ((1 << 20) + 3, 70000) if ctx.quick() else ((1 << 20) + 3, 70000, 1 << 20, (1 << 21) + 1):
         for order in ("big,int,null", "null,big,null,int", "int,big,null,null,big"):
             if ctx.quick() and (big, order) not in (((1 << 20) + 3, "big,int,null"), ((1 << 20) + 3, "null,big,null,int"), (70000, "int,big,null,null,big")):
                 continue
@@ -99,7 +99,7 @@ def random_cases(ctx):
                 else:
                     cs.append(dict(table=b"t", name=b"n%d" % j, type=3, flags=0)); toks.append("none"); exp.append(None)
             n = len(cs)
-            two = not ctx.quick()
+            two = not ctx.quick() and big < (1 << 20)
             prog = "start %s %s er p %sfin" % (progs.cols_tok(cs), " ".join("wc %s p" % t for t in toks), ("wr %d %s p " % (n, " ".join(toks))) if two else "")
             c = mk_case("c07r_%d" % i, [("prepare", cmd_prepare(b"p")), ("execute", cmd_execute(1))], ["p reply 1 0 0", "x all - " + prog])
             c.meta["expect"] = [("rows", cs, [exp, exp] if two else [exp])]
@@ -168,6 +168,22 @@ def run(ctx):
             return [(None, "NULL offered for a NOT NULL column was not refused: %s" % apis[:4])]
         return []
     ctx.diff_conn(nn, tag="C07nn", oracle=nn_oracle)
+    # ... and a shim that, after the refusal, supplies a real value for that column and ends the row: the row
+    # the client receives is exactly the values written, with a clean bitmap
+    rec = []
+    for j, (pos, tok) in enumerate([(1, "none"), (2, "mnull"), (5, "ref none"), (6, "none"), (7, "none"), (9, "mnull")]):
+        ncol = pos + 2
+        cs = [dict(table=b"t", name=b"c%d" % k, type=3, flags=(NOT_NULL if k == pos else 0)) for k in range(ncol)]
+        parts = ["start " + progs.cols_tok(cs)]
+        for k in range(ncol):
+            if k == pos:
+                parts.append("wc %s i" % tok)
+            parts.append("wc i32:%d i" % (k + 1))
+        parts += ["er i", "fin"]
+        c = mk_case("c07rec_%d" % j, [("prepare", cmd_prepare(b"p")), ("execute", cmd_execute(1))], ["p reply 1 0 0", "x all - " + " ".join(parts)])
+        c.meta["expect"] = [("rows", cs, [[("int", k + 1) for k in range(ncol)]])]
+        rec.append(c)
+    ctx.diff_conn(rec, tag="C07rec", oracle=oracle)
     # refusal matrix, direct calls
     L = refusal_lines(ctx)
     impl, model = check.run_val([l[0] for l in L], "C07")
